@@ -159,7 +159,7 @@ fn main() {
             // own validation of Model/Lzma2Writer.lean: `vh W2 <quick|thorough> <seed> <outdir> [cases]`
             let mut rep = Report::new("W2", "LZMA2Writer (fast mode) against the model lzma2FastBytes, byte for byte");
             let n: u64 = args.get(5).and_then(|s| s.parse().ok()).unwrap_or(100);
-            lzma2w::run_lzma2w(&mut rep, &mut rng, n, thorough);
+            lzma2w::run_lzma2w(&mut rep, &mut rng, n, thorough, args.get(6).map(|s| s == "check").unwrap_or(false));
             rep
         }
         "C02" => {
